@@ -6,7 +6,7 @@ from fractions import Fraction
 
 import numpy as np
 
-from symnp.array import HANDLERS, NP_OVERRIDES, SymArray, handles, has_sym, kernel, lifted, sarr, symmax
+from symnp.array import HANDLERS, NP_OVERRIDES, handles, has_sym, kernel, lifted, sarr, symmax
 from symnp.core import And, Not, Or, Poly, Sym, SymBool, cur, lift
 from symnp.harness import Obligation, eq, implies
 from toqito.matrix_ops import tensor, unvec, vec, vectors_from_gram_matrix, vectors_to_gram_matrix
@@ -45,8 +45,9 @@ META = {
                   "toqito.state_props.is_mutually_orthogonal", "toqito.state_props.is_mutually_unbiased_basis"],
     "explanation": "Bounded symbolic execution of the real predicates with every matrix entry a solver term (real or complex). For the "
                    "tolerance predicates z3 decides a two-sided band written with the harness's own residual of the defining equation "
-                   "(own loops): all residual entries within atol (1-norm of re/im) => True; some residual entry beyond "
-                   "atol + rtol*(|re|+|im|) of both sides => False; plus 'exact by construction => True' families (Hermitian, A-A^dagger, "
+                   "(own loops): all residual entries within atol/2 (1-norm of re/im) => True; some residual entry beyond "
+                   "2*(atol + rtol*(|re|+|im|)) of both sides => False (the window in between is where the definition does not fix "
+                   "the verdict; an exact 'iff' with numpy's asymmetric formula would demand more than the property states); plus 'exact by construction => True' families (Hermitian, A-A^dagger, "
                    "SU(2), phases x permutations, hyperbolic rotations, block idempotents, circulants, Birkhoff combinations, polynomials "
                    "in A, ...), 'violates by a margin with bounded entries => False', non-square => False, and invariance of the verdict "
                    "under transposition / conjugation / simultaneous row-column permutation. Comparison predicates (diagonal, diagonally "
@@ -58,10 +59,13 @@ META = {
                    "associativity / list forms / n-fold power, Gram round trip under the Cholesky contract (L L^dagger = G, L lower "
                    "triangular), commutant elements commute with every generator under the null-space contract (M n = 0), weak "
                    "majorisation against partial sums of k-subset maxima.",
-    "bounds": {"quick": "square sizes 1..3 (2^(n^2) sign-pattern forks limit is_nonnegative/is_positive/is_stochastic/is_permutation to "
-                        "<= 2x3), non-square 1x2, 2x3, 3x2; real and complex entries; default and one custom (rtol, atol); "
-                        "kernel predicates n <= 3; helpers dims <= 3, tensor powers n <= 5 of 2x2 / 1x2",
-               "thorough": "square sizes 1..4 (sign-pattern predicates <= 3x3), more rectangular shapes, tensor powers n <= 6"},
+    "bounds": {"quick": "square sizes 1..3, non-square 1x2, 2x3, 3x2; real and complex entries; default and one custom (rtol, atol); "
+                        "predicates that fork per entry sign (is_nonnegative, is_positive, is_stochastic, is_permutation, spark, "
+                        "is_totally_positive with 1x1 minors) up to 2x3; kernel predicates n <= 3; MUB: up to 3 bases in dimension 2; "
+                        "helpers dims <= 3, tensor powers n <= 5 of 2x2 / 1x2 / vectors, n <= 3 of 3x3 / 2x3; majorizes lengths <= 2",
+               "thorough": "square sizes 1..5 (1..6 for the entry-wise linear predicates: Hermitian, anti-Hermitian, symmetric, identity, "
+                           "circulant), more rectangular shapes up to 5x6; sign-forking predicates up to 3x3 / 2x4; kernel predicates "
+                           "n <= 4; MUB 2 bases in dimension 3; tensor powers n <= 6; majorizes lengths <= 3"},
     "trusted_base": ["numpy object-array semantics = numeric semantics (translator validation per obligation)",
                      "np.allclose/isclose modelled by numpy's documented formula |a-b| <= atol + rtol*|b|",
                      "complex np.max = lexicographic maximum (registered from this module; used by is_pure only)",
@@ -77,6 +81,10 @@ META = {
         "itself; only the argument, the slice [:k] and the order p are checked",
         "spark: correctness of matrix_rank itself", "numerical accuracy of every LAPACK kernel; inputs inside the tolerance window "
         "(neither within atol nor beyond atol + rtol*magnitude) where the definition does not fix the verdict",
+        "is_projection: the docstring also asks for positive semidefiniteness, the code and the repository's own test "
+        "(a non-symmetric idempotent 'is a projection') use X^2 = X only: checked as X^2 = X",
+        "is_orthonormal / is_mutually_orthogonal with a single vector (documented ValueError of is_mutually_orthogonal)",
+        "majorizes with vectors of different length and negative entries (zero padding after sorting; no definition given)",
         "invariance under general unitary similarity (degree-4 identities under U^dagger U = I; only permutation similarity, transposition "
         "and conjugation are proved)", "sizes above the bound (property text says 1..6)"],
     "assumptions": ["floats modelled as reals"],
@@ -368,15 +376,17 @@ def num0(x):
 
 
 def band(pairs, rtol=RTOL, atol=ATOL):
-    """(inside, outside): every residual entry within atol (1-norm of re/im)  /  some residual entry beyond
-    atol + rtol*(|re|+|im|) of BOTH sides (inf-norm of re/im).  Between the two the definition does not fix the verdict."""
+    """(inside, outside): every residual entry within atol/2 (1-norm of re/im)  /  some residual entry beyond
+    2*(atol + rtol*(|re|+|im|)) of BOTH sides (inf-norm of re/im).  Between the two the definition does not fix the verdict.
+    The factors 2 keep solver models away from the exact tolerance boundary, where one rounding error of the real
+    floating-point evaluation decides (floats are modelled as reals), so that candidates replay faithfully."""
     ins, outs = [], []
     for lhs, rhs in pairs:
         L, R = np.broadcast_arrays(O(lhs), O(rhs))
         for a, b in zip(L.flat, R.flat):
             d = a - b
-            ins.append(l1(d) <= atol)
-            outs.append(gt_any(d, thr(atol, rtol, l1(a))) & gt_any(d, thr(atol, rtol, l1(b))))
+            ins.append(l1(d) <= atol / 2)
+            outs.append(gt_any(d, 2 * thr(atol, rtol, l1(a))) & gt_any(d, 2 * thr(atol, rtol, l1(b))))
     return And(*ins), Or(*outs)
 
 
@@ -1124,8 +1134,8 @@ def ob_mutually_orthogonal(k, d, kind, form, ket=False, B=100, m=1e-2):
                       valid=mk_valid(pre), exc_post=exc_post, neg_control=k >= 2)
 
 
-def ob_orthonormal(k, d, kind, form, B=100, m=1e-2):
-    cfg = {"vectors": k, "dim": d, "entries": kind, "form": form}
+def ob_orthonormal(k, d, kind, form, B=100, m=1e-2, as_list=False):
+    cfg = {"vectors": k, "dim": d, "entries": kind, "form": form, "argument": "python list of 1-D arrays" if as_list else "2-D array"}
     holder = {"pre": []}
 
     def build(b):
@@ -1140,7 +1150,8 @@ def ob_orthonormal(k, d, kind, form, B=100, m=1e-2):
         return [V[r, :] for r in range(k)]
 
     def call(i):
-        return is_orthonormal(tq(i["V"]))
+        V = tq(i["V"])
+        return is_orthonormal([V[r] for r in range(k)] if as_list else V)
 
     def oracle(i):
         if form == "exact_unitary_rows":
@@ -1174,7 +1185,7 @@ def mub_pairs(V, m, d):
             for k in range(d):
                 for l in range(d):
                     lhs.append(abs2(inner(V[a * d + k], V[c * d + l])))
-    return [(lhs, [Fraction(1, d)] * len(lhs))] if has_sym(V) else [(lhs, [1.0 / d] * len(lhs))]
+    return [(lhs, [1.0 / d] * len(lhs))]    # the double nearest to 1/d (5e-17 away for d = 3: far inside the tolerance)
 
 
 def mub_orthonormal_eqs(V, m, d):
@@ -1251,7 +1262,7 @@ def transform(A, t):
         return cj(A)
     if t.startswith("perm"):
         n = O(A).shape[0]
-        P = perm_matrix([1, 0] if n == 2 else ([1, 2, 0] if n == 3 else [1, 2, 3, 0]))
+        P = perm_matrix(list(range(1, n)) + [0])
         return mm(mm(P, A), tp(P))
     raise ValueError(t)
 
@@ -1599,15 +1610,6 @@ def ob_spark(shape):
                       max_paths=2 ** (m * n) * 8 + 64, weight=5 if m * n > 4 else 1)
 
 
-def ite(c, a, b_):
-    """c ? a : b as a term"""
-    c = sb(c)
-    if c.const is not None:
-        return a if c.const else b_
-    f = lift(c)          # 1 / 0
-    return f * a + (1 - f) * b_
-
-
 def ob_kp_norm(shape, kind, k, p):
     cfg = {"shape": list(shape), "entries": kind, "k": k, "p": p if p != np.inf else "inf"}
 
@@ -1898,15 +1900,49 @@ def ob_majorizes(la, lb, as_list=False, margin=1e-6, B=1000):
                       neg=band_neg, assume=pre, valid=mk_valid(pre), max_paths=4000, weight=30 if n >= 3 else 2, wall_cap_s=900)
 
 
+def ob_majorizes_matrices(sa, sb_, margin=1e-6, B=1000):
+    """matrices: the vectors compared are the singular values (svd kernel, contract: non-negative, descending)"""
+    cfg = {"shape_a": list(sa), "shape_b": list(sb_), "margin": margin, "norm_bound": B}
+    n = max(min(sa), min(sb_))
+
+    def build(b):
+        return {"A": b.array("A", sa, "c"), "B": b.array("B", sb_, "c")}
+
+    def call(i):
+        return majorizes(tq(i["A"]), tq(i["B"]))
+
+    def svals(i):
+        a = list(np.linalg.svd(tq(i["A"]))[1])
+        c = list(np.linalg.svd(tq(i["B"]))[1])
+        return a + [0] * (n - len(a)), c + [0] * (n - len(c))
+
+    def oracle(i):
+        a, c = svals(i)
+        ge = [topk(a, k) >= topk(c, k) for k in range(1, n + 1)]
+        lt = [topk(a, k) < topk(c, k) - margin for k in range(1, n + 1)]
+        return And(*ge), Or(*lt)
+
+    def pre(i):
+        a, _ = svals(i)
+        tot = 0
+        for v in a:
+            tot = tot + v * v
+        nrm = tot.sqrt() if isinstance(tot, Sym) else np.sqrt(float(tot))
+        return [nrm <= B]
+    return Obligation("majorizes.matrices_compared_through_singular_values_of_svd_kernel", cfg, build, call, oracle, post=band_post,
+                      neg=band_neg, assume=pre, valid=mk_valid(pre), contracts=("svd",), tv=False, max_paths=64)
+
+
 def obligations(tier):
     T = tier == "thorough"
     obs = []
-    sizes = [1, 2, 3] + ([4] if T else [])
-    rect = [(1, 2), (2, 3), (3, 2)] + ([(2, 1), (3, 4), (1, 4)] if T else [])
+    sizes = [1, 2, 3] + ([4, 5] if T else [])
+    rect = [(1, 2), (2, 3), (3, 2)] + ([(2, 1), (3, 4), (1, 4), (5, 6)] if T else [])
+    linear = ("is_hermitian", "is_anti_hermitian", "is_symmetric", "is_identity", "is_circulant")
     for pred in TOL_PREDS:
         fn, defn, has_tol = TOL_PREDS[pred]
         for kind in ("r", "c"):
-            for n in sizes:
+            for n in sizes + ([6] if T and pred in linear else []):
                 obs.append(ob_band(pred, (n, n), kind))
                 if has_tol and n in (2, 3):
                     obs.append(ob_band(pred, (n, n), kind, tol=(1e-3, 1e-2)))
@@ -1917,7 +1953,7 @@ def obligations(tier):
                 obs.append(ob_band(pred, shape, kind))
         for label, fam, mode in EXACT.get(pred, []):
             for kind in ("r", "c"):
-                for n in sizes:
+                for n in sizes + ([6] if T and pred in linear else []):
                     if mode == "nra" and (n > 2 or kind == "c"):
                         continue
                     if label in ("rank1_hermitian_projector",) and n < 2:
@@ -1925,20 +1961,20 @@ def obligations(tier):
                     if label == "diagonal_real" and kind == "r":
                         continue
                     obs.append(ob_exact(pred, label, fam, n, kind, mode))
-        for r in range(0, 4):
-            for n in ([2, 3] + ([4] if T else [])):
+        for r in range(0, 5):
+            for n in ([2, 3] + ([4, 5] if T else [])):
                 if r <= n and pred in ("is_projection", "is_idempotent"):
                     for kind in ("r", "c"):
                         obs.append(ob_exact(pred, f"block_I{r}_T_0_0", fam_block_idempotent(r), n, kind))
     # unitary: phases x permutation
-    for n in [2, 3] + ([4] if T else []):
-        perm = {2: [1, 0], 3: [1, 2, 0], 4: [2, 3, 1, 0]}[n]
+    for n in [2, 3] + ([4, 5] if T else []):
+        perm = {2: [1, 0], 3: [1, 2, 0], 4: [2, 3, 1, 0], 5: [1, 2, 3, 4, 0]}[n]
         for kind in ("r", "c"):
             obs.append(ob_exact("is_unitary", "phases_times_permutation", fam_phase_perm(perm), n, kind))
             obs.append(ob_exact("is_normal", "phases_times_permutation", fam_phase_perm(perm), n, kind))
     # pseudo-unitary
     for n, pqs in [(1, [(1, 0), (0, 1)]), (2, [(1, 1), (2, 0), (0, 2), (1, 2)]), (3, [(2, 1), (1, 2), (3, 0), (1, 1)])] + \
-            ([(4, [(2, 2), (3, 1), (1, 2)])] if T else []):
+            ([(4, [(2, 2), (3, 1), (1, 2)]), (5, [(3, 2), (1, 4)])] if T else []):
         for p, q in pqs:
             pred = f"is_pseudo_unitary:{p},{q}"
             for kind in ("r", "c"):
@@ -2001,6 +2037,7 @@ def obligations(tier):
             if d >= 2 and k <= d:
                 obs.append(ob_mutually_orthogonal(k, d, kind, "exact"))
                 obs.append(ob_orthonormal(k, d, kind, "exact_unitary_rows"))
+    obs.append(ob_orthonormal(2, 2, "c", "band", as_list=True))     # the documented argument type: "a list of np.ndarray"
     obs.append(ob_mutually_orthogonal(2, 2, "c", "band", ket=True))
     obs.append(ob_mutually_orthogonal(3, 3, "c", "exact", ket=True))
     obs.append(ob_mutually_orthogonal(1, 2, "c", "band"))
@@ -2097,6 +2134,8 @@ def obligations(tier):
     for la, lb, as_list in [(1, 1, False), (2, 2, False), (2, 2, True), (1, 2, False), (2, 1, False)] + \
             ([(3, 3, False), (2, 3, False), (3, 2, True)] if T else []):
         obs.append(ob_majorizes(la, lb, as_list))
+    for sa, sb_ in [((2, 2), (2, 2)), ((2, 3), (3, 2)), ((2, 2), (3, 3)), ((1, 2), (2, 2))]:
+        obs.append(ob_majorizes_matrices(sa, sb_))
     # invariances
     for pred, ts in INVARIANT.items():
         for t in ts:
